@@ -469,3 +469,61 @@ package generic
 //@   requires live: self.t != thrift.ERROR && whole(self)
 //@   ensures ok: self.t == thrift.STRING ==> r1 == nil && len(r0) == int(thrift.strsz(nbuf(self), 0)) && samerg(r0, self.v) && offset(r0) == offset(self.v) + 4
 //@   ensures other: self.t != thrift.STRING ==> r1 != nil && len(r0) == 0
+
+// ---- DOM (PathNode) lookups by field id (C05) ------------------------------------------------------------------
+// A lookup returns a child whose own path IS the requested field id (never a neighbour that merely occupies the
+// id's slot), or nil. Precondition for the by-id fast path: the tree was loaded with the same option, i.e. the
+// child slice has the 256 id slots plus the overflow area.
+//@ typeinv *PathNode as n = n != nil
+//@ spec (*PathNode).Field
+//@   props C05 C06
+//@   requires opts: opts != nil && !samerg(opts, self)
+//@   requires cfg: StoreChildrenByIdShreshold == 256
+//@   ensures found: r0 != nil && self.Node.t == thrift.STRUCT ==> r0.Path.t != 0 && thrift.FieldID(r0.Path.l) == id && samerg(r0, self.Next)
+//@   loop 1
+//@     invariant i: StoreChildrenByIdShreshold <= i
+//@     decreases len(self.Next) - i
+//@   loop 2
+//@     invariant i: 0 <= i
+//@     decreases len(self.Next) - i
+
+// SetField: the child stored under the id afterwards carries exactly `val` — in the id's own slot when children
+// are stored by id (the slot is claimed if it was empty), else in the matching child or in a new last child.
+//@ spec (*PathNode).SetField
+//@   props C05 C06
+//@   requires opts: opts != nil && !samerg(opts, self) && !samerg(opts, self.Next) && !samerg(self, self.Next) && !samerg(val.v, self.Next)
+//@   requires cfg: StoreChildrenByIdShreshold == 256
+//@   requires slots: opts.StoreChildrenById && 0 <= int(id) && int(id) < 256 && int(id) < len(self.Next) && self.Next[int(id)].Path.t != 0 ==> \
+//@       thrift.FieldID(self.Next[int(id)].Path.l) == id        // by-id layout: an occupied slot below 256 holds the field of that id (as Load builds it)
+//@   ensures kind: self.Node.t != thrift.STRUCT ==> r1 != nil && len(self.Next) == old(len(self.Next))
+//@   ensures byid: old(self.Node.t) == thrift.STRUCT && opts.StoreChildrenById && 0 <= int(id) && int(id) < 256 && int(id) < old(len(self.Next)) ==> \
+//@       r1 == nil && len(self.Next) == old(len(self.Next)) && self.Next[int(id)].Path.t != 0 && thrift.FieldID(self.Next[int(id)].Path.l) == id && \
+//@       self.Next[int(id)].Node.t == val.t && same(self.Next[int(id)].Node.v, val.v) && self.Next[int(id)].Node.l == val.l && \
+//@       (r0 <==> old(self.Next[int(id)].Path.t) != 0)
+//@   ensures grow: old(self.Node.t) == thrift.STRUCT && r1 == nil && !r0 && !(opts.StoreChildrenById && 0 <= int(id) && int(id) < 256 && int(id) < old(len(self.Next))) ==> \
+//@       len(self.Next) == old(len(self.Next)) + 1 && self.Next[old(len(self.Next))].Path.t == PathFieldId && self.Next[old(len(self.Next))].Path.l == int(id) && \
+//@       self.Next[old(len(self.Next))].Node.t == val.t && same(self.Next[old(len(self.Next))].Node.v, val.v) && self.Next[old(len(self.Next))].Node.l == val.l
+//@   ensures keep: r0 ==> len(self.Next) == old(len(self.Next))
+//@   modifies self.Next, self.Next[0:cap(self.Next)]
+//@   loop 1
+//@     invariant i: StoreChildrenByIdShreshold <= i
+//@     decreases len(self.Next) - i
+//@   loop 2
+//@     invariant i: 0 <= i
+//@     decreases len(self.Next) - i
+
+// integer-keyed map lookups, linear search (the hash fast path relies on the probing helpers, which are not under
+// contract: excluded by precondition)
+//@ spec (*PathNode).GetByInt
+//@   props C05 C06
+//@   requires opts: opts != nil && !samerg(opts, self) && !opts.StoreChildrenByHash
+//@   ensures found: r0 != nil && self.Node.t == thrift.MAP && (self.Node.kt == thrift.I08 || self.Node.kt == thrift.I16 || self.Node.kt == thrift.I32 || self.Node.kt == thrift.I64) ==> \
+//@       r0.Path.t == PathIntKey && r0.Path.l == key && samerg(r0, self.Next)
+
+//@ spec (*PathNode).SetByInt
+//@   props C05 C06
+//@   requires opts: opts != nil && !samerg(opts, self) && !samerg(opts, self.Next) && !samerg(self, self.Next) && !samerg(val.v, self.Next) && !opts.StoreChildrenByHash
+//@   ensures grow: r1 == nil && !r0 ==> len(self.Next) == old(len(self.Next)) + 1 && self.Next[old(len(self.Next))].Path.t == PathIntKey && self.Next[old(len(self.Next))].Path.l == key && \
+//@       self.Next[old(len(self.Next))].Node.t == val.t && same(self.Next[old(len(self.Next))].Node.v, val.v) && self.Next[old(len(self.Next))].Node.l == val.l
+//@   ensures keep: r0 ==> len(self.Next) == old(len(self.Next))
+//@   modifies self.Next, self.Next[0:cap(self.Next)]
